@@ -672,7 +672,7 @@ pub fn drive_c19(a: &Args) {
             distinct.dedup();
             let mut tries = vec![];
             let bounds: Vec<(&str, usize)> = vec![("0", 0), ("L-1", n.saturating_sub(1)), ("L", n), ("L+1", n + 1), ("max", usize::MAX)];
-            let capped = n > ITER_CAP;
+            let capped = n > 5000; // bounds and state counts are only exercised on terms of moderate size
             for (name, b) in bounds {
                 if capped && name != "0" {
                     continue; // an unbounded compile of a term this large is not attempted
@@ -690,7 +690,7 @@ pub fn drive_c19(a: &Args) {
         match r {
             Ok((stable, n, ndistinct, first_root, g, tries, cns)) => {
                 let mut m = base_case(id, f, &f.t);
-                m.insert("op".into(), json!(if n > ITER_CAP { "closure_capped" } else if g.nodes.is_empty() { "closure_big" } else { "closure" }));
+                m.insert("op".into(), json!(if n > 5000 { "closure_capped" } else if g.nodes.is_empty() { "closure_big" } else { "closure" }));
                 m.insert("stable".into(), json!(stable));
                 m.insert("len".into(), json!(n));
                 m.insert("distinct".into(), json!(ndistinct));
